@@ -14,6 +14,7 @@ decidable exclusion.
 import CaddyModel.C20.Lemmas
 import CaddyModel.C20.Witness
 import CaddyModel.C20.FEncProps
+import CaddyModel.C20.PlumbProps
 import CaddyModel.Gen.Redacted
 import CaddyModel.Gen.LogSites
 
